@@ -62,12 +62,12 @@ class StackSim:
                     if top != m.group(1):
                         self.errors.append('pop %%%s restores the slot pushed from %%%s' % (m.group(1), top))
                 continue
-            m = re.fullmatch(r'movdqu %(xmm\d+),(0x[0-9a-f]+)?\(%rsp\)', i)
+            m = re.fullmatch(r'(?:movdqu|movdqa|movups|movaps) %(xmm\d+),(0x[0-9a-f]+)?\(%rsp\)', i)
             if m:
                 self.spills[int(m.group(2) or '0', 16)] = m.group(1)
                 self.saved_sse.add(m.group(1))
                 continue
-            m = re.fullmatch(r'movdqu (0x[0-9a-f]+)?\(%rsp\),%(xmm\d+)', i)
+            m = re.fullmatch(r'(?:movdqu|movdqa|movups|movaps) (0x[0-9a-f]+)?\(%rsp\),%(xmm\d+)', i)
             if m:
                 o = int(m.group(1) or '0', 16)
                 if self.spills.get(o) != m.group(2):
